@@ -16,6 +16,8 @@ func (e *syntaxQueryParamCurrentRoot) compute(
 	var hasValue bool
 
 	container := getContainer()
+
+	verifHook(6, container)
 	defer func() {
 		putContainer(container)
 	}()
